@@ -593,6 +593,10 @@ func (st *Stack) compactRange(first, last int, expiration *LogExpirationConfig) 
 	if os.IsExist(err) {
 		return false, nil
 	}
+	if err != nil {
+		// The lock was not acquired; it is not ours to remove.
+		return false, err
+	}
 
 	lockFile.Close()
 	defer func() {
